@@ -284,4 +284,6 @@ def rule_atomic_emissions(ctx):
     rule_atomicity(ctx)
 
 
-RULES = [rule_atomic_emissions, rule_tables, rule_increment, rule_readiness]
+from .rules_wrappers import rules_for as _rules_for
+_fw_C03 = _rules_for("C03")
+RULES = [rule_atomic_emissions, rule_tables, rule_increment, rule_readiness, _fw_C03]
